@@ -2180,6 +2180,30 @@ func (l *Lowerer) lowerConstantUnaryExpr(name string, typ parser.Type, expr *par
 			negLit := &parser.Literal{Kind: lit.Kind, Value: "-" + lit.Value, Span: lit.Span}
 			return l.lowerScalarConstant(name, typ, negLit)
 		}
+		// Negation of an integer constant expression: const X: i32 = -(A + 1i);
+		// (the float path below would store float bits in an integer constant)
+		if l.isIntegerConstExpr(expr.Operand) {
+			if kind, val, ierr := l.evalConstantIntExpr(expr.Operand); ierr == nil {
+				result := -val
+				var typeHandle ir.TypeHandle
+				if typ != nil {
+					typeHandle, _ = l.resolveType(typ)
+					var bits uint64
+					kind, bits = l.coerceScalarToType(kind, uint64(result), typeHandle)
+					result = int64(bits)
+				} else {
+					typeHandle = l.registerType("", ir.ScalarType{Kind: kind, Width: 4})
+				}
+				handle := ir.ConstantHandle(len(l.module.Constants))
+				l.module.Constants = append(l.module.Constants, ir.Constant{
+					Name:  name,
+					Type:  typeHandle,
+					Value: ir.ScalarValue{Bits: uint64(result), Kind: kind},
+				})
+				l.moduleConstants[name] = handle
+				return nil
+			}
+		}
 		// Negation of constant expression
 		floatVal, err := l.evalConstantFloatExpr(expr)
 		if err == nil {
@@ -2268,6 +2292,23 @@ func (l *Lowerer) lowerConstantUnaryExpr(name string, typ parser.Type, expr *par
 	default:
 		return fmt.Errorf("module constant '%s': unsupported unary operator %v", name, expr.Op)
 	}
+}
+
+// isIntegerConstExpr reports whether expr is built only from integer literals, integer
+// module constants and integer operators, so that evalConstantIntExpr yields its value.
+func (l *Lowerer) isIntegerConstExpr(expr parser.Expr) bool {
+	switch e := expr.(type) {
+	case *parser.Literal:
+		return e.Kind == parser.TokenIntLiteral
+	case *parser.Ident:
+		kind, _, err := l.evalConstantIdent(e.Name)
+		return err == nil && (kind == ir.ScalarSint || kind == ir.ScalarUint)
+	case *parser.UnaryExpr:
+		return (e.Op == parser.TokenMinus || e.Op == parser.TokenTilde) && l.isIntegerConstExpr(e.Operand)
+	case *parser.BinaryExpr:
+		return l.isIntegerConstExpr(e.Left) && l.isIntegerConstExpr(e.Right)
+	}
+	return false
 }
 
 // evalConstantFloatExpr evaluates a constant float expression at compile time.
